@@ -1,7 +1,142 @@
 (** C18 — property theorems only; each closed by [exact] of a lemma proved elsewhere. *)
-From Coq Require Import ZArith.
-From VB Require Import Arith.CompactDefs Arith.CompactProofs.
+From Coq Require Import ZArith List Bool.
+From VB Require Import Arith.CompactDefs Arith.CompactProofs Arith.CompactSpec.
+From VB Require Import Arith.U256Defs Arith.U256Proofs.
+From VB Require Import Gen.TextTables Text.TextCommon Text.Base59Defs Text.Base59Proofs Text.Base59Proofs2.
+Import ListNotations.
 Local Open Scope Z_scope.
+
+(** * 256-bit arithmetic: the byte-array code equals the mathematical operation mod 2^256 *)
+
+Theorem C18_u256_add : forall a b, wf a -> wf b ->
+  uval (uadd a b) = (uval a + uval b) mod 2 ^ 256 /\ wf (uadd a b).
+Proof. exact add_exact. Qed.
+Print Assumptions C18_u256_add.
+
+Theorem C18_u256_sub : forall a b, wf a -> wf b ->
+  uval (usub a b) = (uval a - uval b) mod 2 ^ 256 /\ wf (usub a b).
+Proof. exact sub_exact. Qed.
+Print Assumptions C18_u256_sub.
+
+Theorem C18_u256_neg : forall a, wf a -> uval (neg a) = (- uval a) mod 2 ^ 256 /\ wf (neg a).
+Proof. exact neg_exact. Qed.
+Print Assumptions C18_u256_neg.
+
+Theorem C18_u256_not : forall a, wf a -> uval (bnot a) = 2 ^ 256 - 1 - uval a /\ wf (bnot a).
+Proof. exact not_exact. Qed.
+Print Assumptions C18_u256_not.
+
+Theorem C18_u256_inc : forall a, wf a -> uval (inc a) = (uval a + 1) mod 2 ^ 256 /\ wf (inc a).
+Proof. exact inc_exact. Qed.
+Print Assumptions C18_u256_inc.
+
+Theorem C18_u256_dec : forall a, wf a -> uval (dec a) = (uval a - 1) mod 2 ^ 256 /\ wf (dec a).
+Proof. exact dec_exact. Qed.
+Print Assumptions C18_u256_dec.
+
+Theorem C18_u256_mul32 : forall a w, wf a -> 0 <= w < 2 ^ 32 ->
+  uval (mul32 a w) = (uval a * w) mod 2 ^ 256 /\ wf (mul32 a w).
+Proof. exact mul32_exact. Qed.
+Print Assumptions C18_u256_mul32.
+
+Theorem C18_u256_mul : forall a b, wf a -> wf b ->
+  uval (umul a b) = (uval a * uval b) mod 2 ^ 256 /\ wf (umul a b).
+Proof. exact mul_exact. Qed.
+Print Assumptions C18_u256_mul.
+
+Theorem C18_u256_div : forall a b, wf a -> wf b ->
+  match udiv a b with
+  | Throw => uval b = 0
+  | Done q => 0 < uval b /\ uval q = uval a / uval b /\ wf q
+  end.
+Proof. exact div_exact. Qed.
+Print Assumptions C18_u256_div.
+
+Theorem C18_u256_div_by_zero_throws : forall a b, wf a -> wf b -> (udiv a b = Throw <-> uval b = 0).
+Proof. exact div_throws_iff. Qed.
+Print Assumptions C18_u256_div_by_zero_throws.
+
+Theorem C18_u256_shl : forall a sh, wf a -> 0 <= sh ->
+  uval (shl a sh) = (uval a * 2 ^ sh) mod 2 ^ 256 /\ wf (shl a sh).
+Proof. exact shl_exact. Qed.
+Print Assumptions C18_u256_shl.
+
+Theorem C18_u256_shr : forall a sh, wf a -> 0 <= sh ->
+  uval (shr a sh) = uval a / 2 ^ sh /\ wf (shr a sh).
+Proof. exact shr_exact. Qed.
+Print Assumptions C18_u256_shr.
+
+Theorem C18_u256_compare : forall a b, wf a -> wf b ->
+  cmp a b = match uval a ?= uval b with Lt => -1 | Eq => 0 | Gt => 1 end.
+Proof. exact cmp_exact. Qed.
+Print Assumptions C18_u256_compare.
+
+Theorem C18_u256_bits : forall a, wf a -> ubits a = (if uval a =? 0 then 0 else Z.log2 (uval a) + 1).
+Proof. exact bits_exact. Qed.
+Print Assumptions C18_u256_bits.
+
+Theorem C18_u256_getLow64 : forall a, wf a -> getLow64 a = uval a mod 2 ^ 64.
+Proof. exact getLow64_exact. Qed.
+Print Assumptions C18_u256_getLow64.
+
+Theorem C18_u256_of_u64 : forall b, 0 <= b < 2 ^ 64 -> uval (of_u64 b) = b /\ wf (of_u64 b).
+Proof. exact of_u64_exact. Qed.
+Print Assumptions C18_u256_of_u64.
+
+(** * compact targets *)
+
+(** the byte-level codec (built from the operations above) is the value-level codec *)
+Theorem C18_compact_fromBits_bytes : forall c, 0 <= c < 2 ^ 32 ->
+  let '(t, neg, ovf) := fromBits_b c in
+  let '(t', neg', ovf') := fromBits c in
+  uval t = t' /\ neg = neg' /\ ovf = ovf' /\ wf t.
+Proof. exact fromBits_bytes. Qed.
+Print Assumptions C18_compact_fromBits_bytes.
+
+Theorem C18_compact_toBits_bytes : forall a neg, wf a -> toBits_b a neg = toBits (uval a) neg.
+Proof. exact toBits_bytes. Qed.
+Print Assumptions C18_compact_toBits_bytes.
+
+(** every uint32 is size byte * sign bit * 23-bit mantissa ... *)
+Theorem C18_compact_every_uint32 : forall c, 0 <= c < 2 ^ 32 ->
+  exists s sg m, 0 <= s < 256 /\ 0 <= sg <= 1 /\ 0 <= m < 2 ^ 23 /\ c = s * 2 ^ 24 + sg * 2 ^ 23 + m.
+Proof. exact fromBits_total. Qed.
+Print Assumptions C18_compact_every_uint32.
+
+(** ... and decodes as Bitcoin's SetCompact defines: value, negative flag, and
+    the overflow flag is set exactly when the mathematical value does not fit *)
+Theorem C18_compact_fromBits_spec : forall s sg m,
+  0 <= s < 256 -> 0 <= sg <= 1 -> 0 <= m < 2 ^ 23 ->
+  let w := word s m in
+  fromBits (s * 2 ^ 24 + sg * 2 ^ 23 + m) =
+    ((if s <=? 3 then w else (m * 2 ^ (8 * (s - 3))) mod 2 ^ 256),
+     negb (w =? 0) && (sg =? 1),
+     negb (w =? 0) && (if s <=? 3 then false else 2 ^ 256 <=? m * 2 ^ (8 * (s - 3)))).
+Proof. exact fromBits_spec. Qed.
+Print Assumptions C18_compact_fromBits_spec.
+
+Theorem C18_compact_toBits_sign : forall v neg, 0 <= v < 2 ^ 256 ->
+  let c := toBits v neg in
+  0 <= c < 2 ^ 32 /\
+  (Z.land c 8388608 <> 0 <-> neg = true /\ Z.land c 8388607 <> 0) /\
+  (Z.testbit c 23 = true <-> neg = true /\ Z.land c 8388607 <> 0) /\
+  Z.land (toBits v false) 8388608 = 0 /\
+  Z.testbit (toBits v false) 23 = false /\
+  Z.land (toBits v true) 8388607 = Z.land (toBits v false) 8388607 /\
+  toBits v true = toBits v false + (if Z.land (toBits v false) 8388607 =? 0 then 0 else 2 ^ 23).
+Proof. exact toBits_sign. Qed.
+Print Assumptions C18_compact_toBits_sign.
+
+(** decoding an encoding gives the value truncated to its leading mantissa bytes *)
+Theorem C18_compact_fromBits_toBits : forall v neg, 0 <= v < 2 ^ 256 ->
+  fromBits (toBits v neg) = (trunc v, neg && negb (trunc v =? 0), false).
+Proof. exact fromBits_toBits_gen. Qed.
+Print Assumptions C18_compact_fromBits_toBits.
+
+Theorem C18_compact_trunc_bounds : forall v, 0 <= v ->
+  if csize v <=? 3 then trunc v = v else trunc v <= v < trunc v + 2 ^ (8 * (csize v - 3)).
+Proof. exact trunc_bounds. Qed.
+Print Assumptions C18_compact_trunc_bounds.
 
 Theorem C18_compact_roundtrip :
   forall c, canonical_pos c ->
@@ -9,3 +144,33 @@ Theorem C18_compact_roundtrip :
     neg = false /\ ovf = false /\ 0 < t < 2 ^ 256 /\ toBits t false = c.
 Proof. exact toBits_fromBits. Qed.
 Print Assumptions C18_compact_roundtrip.
+
+(** * base59 *)
+
+Theorem C18_base59_roundtrip : forall bs, bytes bs -> Z.of_nat (length bs) <= size_max ->
+  b59_decode (b59_encode bs) = Ok bs.
+Proof. exact b59_roundtrip. Qed.
+Print Assumptions C18_base59_roundtrip.
+
+Theorem C18_base59_rejects_foreign_characters : forall s, bytes s ->
+  (exists c, In c s /\ ~ In c b59_alphabet) -> b59_decode s = Invalid.
+Proof. exact b59_decode_rejects. Qed.
+Print Assumptions C18_base59_rejects_foreign_characters.
+
+Theorem C18_base59_canonical_text_reencodes : forall s v, bytes s -> Z.of_nat (length s) <= size_max ->
+  b59_decode s = Ok v -> b59_encode v = s.
+Proof. exact b59_encode_decode. Qed.
+Print Assumptions C18_base59_canonical_text_reencodes.
+
+Theorem C18_base59_never_aborts : forall s, bytes s -> b59_decode s <> Abort.
+Proof. exact b59_decode_no_abort. Qed.
+Print Assumptions C18_base59_never_aborts.
+
+Theorem C18_base59_table_inverse_1 : forall d, 0 <= d < 59 -> lookup b59_indexes (char_of_digit d) = d.
+Proof. exact b59_index_of_char. Qed.
+Print Assumptions C18_base59_table_inverse_1.
+
+Theorem C18_base59_table_inverse_2 : forall c, 0 <= c < 128 ->
+  lookup b59_indexes c = -1 \/ (0 <= lookup b59_indexes c < 59 /\ char_of_digit (lookup b59_indexes c) = c).
+Proof. exact b59_char_of_index. Qed.
+Print Assumptions C18_base59_table_inverse_2.
